@@ -366,6 +366,8 @@ def gen_contest(rng, tier, like=None):
            "n_winners": n_winners, "share": share, "cvrs": cvrs}
     if scf != APPR and rng.chance(0.3):
         out["direct"] = True        # make_plurality_assertions / make_supermajority_assertion called directly
+    if rng.chance(0.12):
+        out["votes_type"] = rng.choice(["defaultdict", "defaultdict", "ordered"])
     return out
 
 
@@ -576,8 +578,22 @@ def _contest_dict(case, cards):
 
 def _cvrs(case):
     from shangrla.core.Audit import CVR
-    return CVR.from_dict([{"id": c["id"], "votes": {k: {cand: v for cand, v in m} for k, m in c["votes"]}}
-                          for c in case["cvrs"]])
+    out = CVR.from_dict([{"id": c["id"], "votes": {k: {cand: v for cand, v in m} for k, m in c["votes"]}}
+                         for c in case["cvrs"]])
+    vt = case.get("votes_type") or _VOTES_TYPE[0]
+    if vt:
+        # the vote dict as another Mapping type (records assembled with collections.defaultdict / OrderedDict): reading a
+        # card must not change it -- a lookup that inserts the contest would make has_contest() true afterwards
+        import collections
+        for c in out:
+            if vt == "defaultdict":
+                c.votes = collections.defaultdict(dict, {k: collections.defaultdict(bool, v) for k, v in c.votes.items()})
+            else:
+                c.votes = collections.OrderedDict(c.votes)
+    return out
+
+
+_VOTES_TYPE = [None]
 
 
 def _try(f):
@@ -637,6 +653,14 @@ def _amend(cvrs, ops):
 
 
 def impl_contest(case):
+    _VOTES_TYPE[0] = case.get("votes_type")
+    try:
+        return _impl_contest(case)
+    finally:
+        _VOTES_TYPE[0] = None
+
+
+def _impl_contest(case):
     from shangrla.core.Audit import Contest, Assertion
     cid = case["contest"]
     rounds = case.get("rounds") or []
